@@ -2,25 +2,35 @@
    Only theorem statements here; proofs live in Proof/Literal.v. *)
 From Murex Require Import Base.Outcome Base.Bytes Model.ByteStr Model.Literal Check.C36 Proof.Literal.
 
-(* A literal written as a JSON array or object of the property's grammar —
-   null, true, false, numbers, double-quoted strings without murex escapes,
-   arrays and objects nested to any depth — printed with any inline spacing
-   variant (spaces, tabs, \r around brackets, commas and colons) evaluates to
-   exactly the value the document denotes (objects: members in key order, a
-   repeated key keeping its last value, as encoding/json does). *)
-Theorem C36_literal_eq_json : forall st, style_ok st = true ->
-  forall j, restricted j = true ->
-  match j with JArr _ | JObj _ => True | _ => False end ->
-  lit_parse (37%N :: print st j) = Ok (canon j).
+(* Headline.  For every text in the image of the printer — a document of the
+   property's grammar (null, true, false, JSON numbers, double-quoted strings
+   without murex escapes, arrays and objects nested to any depth) rendered in any
+   style: single-line with arbitrary inline white space, or indented over several
+   lines with line breaks after opening brackets and commas and before closing
+   brackets — the literal evaluates to exactly what the plain JSON parser reads.
+   The only excluded shape is known finding 1: a line break between a key's
+   colon and its value (s_colb / s_cola are inline white space). *)
+Theorem C36_literal_eq_json : forall txt, rendering txt -> lit_parse (37%N :: txt) = json_parse txt.
 Proof. exact literal_eq_json. Qed.
 Print Assumptions C36_literal_eq_json.
 
-(* parseArrayMaker's `..` range detection never fires on such text: its scan
-   stops early or ends with the range flag unset, for a JSON array followed by
-   anything. *)
-Theorem C36_arraymaker_never_fires_on_json : forall st, style_ok st = true ->
-  forall l rest, restricted (JArr l) = true ->
-  match print st (JArr l) ++ rest with
+(* both sides separately: the value is the one the document denotes (objects:
+   members in key order, a repeated key keeping its last value) *)
+Theorem C36_literal_value : forall st, style_ok st -> forall j, restricted j = true -> top j ->
+  lit_parse (37%N :: print st 0 j) = Ok (canon j).
+Proof. exact literal_value. Qed.
+Print Assumptions C36_literal_value.
+
+(* print / json_parse round trip *)
+Theorem C36_json_parse_print : forall st, style_ok st -> forall j, restricted j = true -> top j ->
+  json_parse (print st 0 j) = Ok (canon j).
+Proof. exact json_parse_print. Qed.
+Print Assumptions C36_json_parse_print.
+
+(* parseArrayMaker's `..` range detection never fires on such text *)
+Theorem C36_arraymaker_never_fires_on_json : forall st, style_ok st ->
+  forall d l rest, restricted (JArr l) = true ->
+  match print st d (JArr l) ++ rest with
   | _ :: r => maker_scan r 1 false = MkEarly \/ maker_scan r 1 false = MkEnd false
   | [] => False
   end.
@@ -28,27 +38,49 @@ Proof. exact arraymaker_never_fires. Qed.
 Print Assumptions C36_arraymaker_never_fires_on_json.
 
 (* every element / member value is consumed exactly once by the array loop and
-   by the object loop (the inductive invariant of the headline theorem) *)
-Theorem C36_value_consumed : forall st, style_ok st = true ->
-  forall j, restricted j = true -> elem_ok st j /\ val_ok st j.
+   by the object loop (the inductive invariant) *)
+Theorem C36_value_consumed : forall st, style_ok st ->
+  forall j d, restricted j = true -> elem_ok st d j /\ val_ok st d j.
 Proof. exact both. Qed.
 Print Assumptions C36_value_consumed.
 
-(* Non-vacuity: the grammar contains real documents (numbers such as -12.5e+3,
-   strings with `..`, brackets and multi-byte characters, nested objects with a
-   repeated key), the literal evaluates, a `..` outside a string does fire the
-   array maker, and spec_ok rejects a wrong value. *)
+(* the generator's styles are styles of the theorem: encoding/json's MarshalIndent
+   layout with any indentation width, and every constant-spacing layout *)
+Theorem C36_indent_style_ok : forall k, style_ok (indent_style k).
+Proof. exact indent_style_ok. Qed.
+Print Assumptions C36_indent_style_ok.
+
+Theorem C36_const_style_ok : forall o cb ca colb cola cl e,
+  wsn_ok o = true -> ws_ok cb = true -> wsn_ok ca = true -> ws_ok colb = true -> ws_ok cola = true ->
+  wsn_ok cl = true -> wsn_ok e = true -> style_ok (const_style o cb ca colb cola cl e).
+Proof. exact const_style_ok. Qed.
+Print Assumptions C36_const_style_ok.
+
+(* ... and any layout made of a line-break string and an indentation unit per
+   level: tab indentation, CRLF line ends *)
+Theorem C36_layout_style_ok : forall nl unit cola,
+  wsn_ok nl = true -> wsn_ok unit = true -> ws_ok cola = true -> style_ok (layout_style nl unit cola).
+Proof. exact layout_style_ok. Qed.
+Print Assumptions C36_layout_style_ok.
+
+(* Non-vacuity: a real document (numbers such as -12.5e+3, strings with `..`,
+   brackets and multi-byte characters, nested objects with a repeated key, empty
+   containers) rendered with 2-space indentation evaluates; the excluded shape
+   (newline after a colon) fails in the model exactly as in murex; `%[1..3]` does
+   fire the array maker; spec_ok rejects a wrong value. *)
 Local Open Scope N_scope.
 Definition C36_sample : json :=
-  JArr [JNum [45; 49; 50; 46; 53; 101; 43; 51]; JStr [97; 46; 46; 98; 91; 195; 169]; JNull;
-        JObj [([107], JBool true); ([97], JArr []); ([107], JNum [48])]].
-Definition C36_loose : style :=
-  {| s_open := [32]; s_cb := [32]; s_ca := [32; 9]; s_colb := [32]; s_cola := [32; 32]; s_close := [13; 32] |}.
+  JArr [JNum [45; 49; 50; 46; 53; 101; 43; 51]; JStr [97; 46; 46; 98; 91; 195; 169]; JNull; JArr [];
+        JObj [([107], JBool true); ([97], JArr [JObj []]); ([107], JNum [48])]].
 Example C36_nonvacuous :
-  restricted C36_sample = true /\ style_ok C36_loose = true /\
-  lit_parse (37 :: print C36_loose C36_sample) =
-    Ok (JArr [JNum [45; 49; 50; 46; 53; 101; 43; 51]; JStr [97; 46; 46; 98; 91; 195; 169]; JNull;
-              JObj [([97], JArr []); ([107], JNum [48])]]) /\
+  restricted C36_sample = true /\
+  lit_parse (37 :: print (indent_style 2) 0 C36_sample) =
+    Ok (JArr [JNum [45; 49; 50; 46; 53; 101; 43; 51]; JStr [97; 46; 46; 98; 91; 195; 169]; JNull; JArr [];
+              JObj [([97], JArr [JObj []]); ([107], JNum [48])]]) /\
+  json_parse (print (indent_style 2) 0 C36_sample) = lit_parse (37 :: print (indent_style 2) 0 C36_sample) /\
+  existsb (N.eqb 10) (print (indent_style 2) 0 C36_sample) = true /\
+  lit_parse [37; 123; 34; 97; 34; 58; 10; 49; 125] = Err 5 /\
+  json_parse [123; 34; 97; 34; 58; 10; 49; 125] = Ok (JObj [([97], JNum [49])]) /\
   lit_parse [37; 91; 49; 46; 46; 51; 93] = Err 8 /\
   spec_ok {| c_text := [37; 91; 110; 117; 108; 108; 93]; c_nums := [];
              c_obs := {| o_ok := true; o_val := VArr [VStr [110; 117; 108; 108]];
